@@ -90,7 +90,25 @@ MUTANTS = [
        "                age_limit = self.override_lease_duration\n"
        "            if age > age_limit:\n"
        "                expired = True\n", "C26.2"),
+    mk("age-boundary-expires", EXP, "                if age > age_limit:", "                if age >= age_limit:", "C26.2",
+       note="sweep survivor: a lease whose age equals its duration is expired; the documented predicate is strict"),
+    mk("cutoff-boundary-expires", EXP,
+       "                if grant_renew_time < self.cutoff_date:", "                if grant_renew_time <= self.cutoff_date:", "C26.2",
+       note="sweep survivor: renewal time and cutoff are whole seconds - a lease renewed at the cutoff is not 'older than' it"),
+    mk("cutoff-boundary-expires-negated-form", EXP,
+       "                if grant_renew_time < self.cutoff_date:", "                if not grant_renew_time > self.cutoff_date:", "C26.2"),
+    mk("stop-examining-after-first-expired", EXP,
+       "            if expired:\n                expired_leases_configured.append(li)\n",
+       "            if expired:\n                expired_leases_configured.append(li)\n                break\n", "C26.2",
+       note="one expired lease per share and cycle: a fully expired share outlives the cycle"),
+    mk("stop-examining-at-first-expired-unqueued", EXP,
+       "            if expired:\n                expired_leases_configured.append(li)\n",
+       "            if expired and num_leases > 4:\n                break\n            if expired:\n                expired_leases_configured.append(li)\n",
+       "C26.2", note="loop left on an expired lease without an unexpired verdict"),
     # ---- C26.3 guarded effect
+    mk("cancel-only-the-first-expired", EXP,
+       "                sf.cancel_lease(li.cancel_secret)\n", "                sf.cancel_lease(li.cancel_secret)\n                break\n",
+       "C26.3", note="the other expired leases stay until later cycles"),
     mk("cancel-without-enabled", EXP,
        "        if self.expiration_enabled:\n            for li in expired_leases_configured:\n                sf.cancel_lease(li.cancel_secret)\n",
        "        for li in expired_leases_configured:\n            sf.cancel_lease(li.cancel_secret)\n", "C26.3"),
@@ -133,7 +151,25 @@ MUTANTS = [
        "        blank_lease = LeaseInfo(owner_num=0,\n                                renew_secret=b\"\\x00\"*32,\n                                cancel_secret=b\"\\x00\"*32,\n                                expiration_time=0,\n                                nodeid=b\"\\x00\"*20)\n        with open(self.home, 'rb+') as f:\n            for (leasenum,lease) in self._enumerate_leases(f):\n                accepting_nodeids.add(lease.nodeid)\n                if lease.is_cancel_secret",
        "        blank_lease = LeaseInfo(owner_num=1,\n                                renew_secret=b\"\\x00\"*32,\n                                cancel_secret=b\"\\x00\"*32,\n                                expiration_time=0,\n                                nodeid=b\"\\x00\"*20)\n        with open(self.home, 'rb+') as f:\n            for (leasenum,lease) in self._enumerate_leases(f):\n                accepting_nodeids.add(lease.nodeid)\n                if lease.is_cancel_secret",
        "C26.4"),
+    # ---- C26.7 cancelling the last lease reaches the unlink
+    mk("mutable-cancelled-share-reported-missing", MUT, "            if modified:\n", "            if not modified:\n", "C26.7",
+       note="sweep survivor: the lease is blanked, then IndexError instead of the unlink decision"),
+    mk("mutable-match-not-counted", MUT, "                    modified += 1\n", "", "C26.7",
+       note="sweep survivor: a cancellation that is never counted ends in IndexError, the share stays"),
+    mk("mutable-unlink-behind-remaining", MUT, "            if modified:\n", "            if remaining:\n", "C26.7",
+       note="the unlink decision is only entered when a lease remains, where it can only say no"),
+    mk("immutable-match-not-counted", IMM, "                num_leases_removed += 1\n", "", "C26.7",
+       note="sweep survivor"),
+    mk("immutable-unlink-only-without-removal", IMM,
+       "        space_freed = self.LEASE_SIZE * num_leases_removed\n        if not len(leases):\n",
+       "        space_freed = self.LEASE_SIZE * num_leases_removed\n        if not len(leases) and not num_leases_removed:\n",
+       "C26.7", note="unlink conjoined with a counter test that is false after every successful cancellation"),
     # ---- C26.5 configuration plumbing
+    mk("client-mode-optional-when-enabled", CLIENT, "        if expire:\n            mode =", "        if not expire:\n            mode =",
+       "C26.5", note="sweep survivor: expiry enabled without a mode starts deleting by age"),
+    mk("client-mode-always-defaults", CLIENT,
+       "            mode = self.config.get_config(\"storage\", \"expire.mode\") # require a mode\n",
+       "            mode = self.config.get_config(\"storage\", \"expire.mode\", \"age\")\n", "C26.5"),
     mk("client-override-gets-cutoff", CLIENT,
        "            expiration_override_lease_duration=o_l_d,", "            expiration_override_lease_duration=cutoff_date,", "C26.5"),
     mk("client-duration-not-parsed", CLIENT,
@@ -221,6 +257,29 @@ MUTANTS = [
     mk("benign-count-expired", EXP,
        "        would_keep_share = [1, 1, 1, sharetype]\n",
        "        would_keep_share = [1, 1, 1, sharetype]\n        n_expired = len(expired_leases_configured)\n", None),
+    mk("benign-age-strict-negated", EXP, "                if age > age_limit:", "                if not age <= age_limit:", None),
+    mk("benign-cutoff-strict-swapped", EXP,
+       "                if grant_renew_time < self.cutoff_date:", "                if not self.cutoff_date <= grant_renew_time:", None),
+    mk("benign-mutable-modified-positive", MUT, "            if modified:\n", "            if modified > 0:\n", None),
+    mk("benign-mutable-modified-recomputed", MUT, "                    modified += 1\n",
+       "                    modified = modified + 1\n", None,
+       note="no longer a constant-stepped counter: its tests are left undecided, never closed"),
+    mk("benign-mutable-missing-first", MUT,
+       "            if modified:\n                freed_space = self._pack_leases(f)\n                f.close()\n"
+       "                if not remaining:\n                    freed_space += os.stat(self.home)[stat.ST_SIZE]\n"
+       "                    self.unlink()\n                return freed_space\n",
+       "            if modified != 0:\n                freed_space = self._pack_leases(f)\n                f.close()\n"
+       "                if remaining < 1:\n                    freed_space += os.stat(self.home)[stat.ST_SIZE]\n"
+       "                    self.unlink()\n                return freed_space\n", None),
+    mk("benign-immutable-found-flag", IMM, "        num_leases_removed = 0\n", "        num_leases_removed = 0\n        found = False\n", None,
+       edits=[(IMM, "                num_leases_removed += 1\n", "                num_leases_removed += 1\n                found = True\n"),
+              (IMM, "        if not num_leases_removed:\n            raise IndexError", "        if not found:\n            raise IndexError")],
+       note="a boolean flag instead of the counter in the not-found test"),
+    mk("benign-client-mode-branches-swapped", CLIENT,
+       "        if expire:\n            mode = self.config.get_config(\"storage\", \"expire.mode\") # require a mode\n"
+       "        else:\n            mode = self.config.get_config(\"storage\", \"expire.mode\", \"age\")\n",
+       "        if not expire:\n            mode = self.config.get_config(\"storage\", \"expire.mode\", \"age\")\n"
+       "        else:\n            mode = self.config.get_config(\"storage\", \"expire.mode\") # require a mode\n", None),
     # ---- vanished anchors
     mk("vanish-process-share", EXP, "    def process_share(self, sharefilename):", "    def process_shareX(self, sharefilename):",
        "ANALYSIS-ERROR"),
